@@ -148,7 +148,8 @@ def run(res, info):
     res.assumptions = ["(loop.index0/neqns)|int in the Jinja template is float division: exact below 2^53"]
     n_a = 150 if res.tier == "quick" else 2500
     n_b = 5 if res.tier == "quick" else 40
-    for i, d in enumerate(c01.FIXED + c02.MOD_FIXED):
+    # user-registered heating processes exist in channel A only (C01 / C02 use them): the layouts are compared without them
+    for i, d in enumerate([{k: v for k, v in d0.items() if k != "heating"} for d0 in c01.FIXED + c02.MOD_FIXED]):
         check_desc(res, model, d, rng, ("fixed", i), channel_b=True)
     for i in range(n_a):
         check_desc(res, model, c01.gen_desc(rng, "small" if i % 6 else "large"), rng, i, channel_b=(i < n_b))
